@@ -2,7 +2,9 @@ package c17
 
 import (
 	"fmt"
+	"math"
 	"math/bits"
+	"strconv"
 	"strings"
 	"sync/atomic"
 	"testing"
@@ -273,6 +275,14 @@ func genRows(t *rapid.T, large bool) [][]val.Val {
 	}
 	nullPct := intRange(t, "nullPct", 0, 45)
 	oRange := intRange(t, "o1Range", 0, 4)
+	// o1 mode: small integers, or integers around +-2^53, +-2^62, +-(2^63-1) that differ by 1-2 (also
+	// spelled as strings), optionally mixed with floats of the same magnitude
+	var bigPool []int64
+	bigFloats := false
+	if m := uni(t, "o1Mode", 100); m < 25 {
+		bigFloats = m < 10
+		bigPool = genBigPool(t, bigFloats)
+	}
 	rows := make([][]val.Val, n)
 	for i := 0; i < n; i++ {
 		r := make([]val.Val, len(cols))
@@ -283,9 +293,12 @@ func genRows(t *rapid.T, large bool) [][]val.Val {
 			r[cP1] = pool[intRange(t, "p1", 0, npool-1)]
 		}
 		r[cP2] = pick(t, "p2", []val.Val{val.Int(0), val.Int(0), val.Int(1), val.Null})
-		if chance(t, "o1Null", 15) {
+		switch {
+		case chance(t, "o1Null", 15):
 			r[cO1] = val.Null
-		} else {
+		case bigPool != nil:
+			r[cO1] = bigCell(t, pick(t, "o1Big", bigPool), bigFloats)
+		default:
 			r[cO1] = val.Int(int64(intRange(t, "o1", -1, oRange)))
 		}
 		if chance(t, "o2Null", 15) {
@@ -306,6 +319,58 @@ func genRows(t *rapid.T, large bool) [][]val.Val {
 		rows[i] = r
 	}
 	return rows
+}
+
+var bigBases = []int64{1 << 53, -(1 << 53), 1 << 62, -(1 << 62), math.MaxInt64, -math.MaxInt64}
+
+// genBigPool draws 2-6 integers from one or two neighbourhoods of the bases.
+// With floats in the column the integers keep distinct float64 images: an
+// integer and a float compare as float64, two integers exactly, and two
+// different integers with one image next to a float of that value would make
+// "peer" intransitive (a don't-care zone of the property).
+func genBigPool(t *rapid.T, injective bool) []int64 {
+	var pool []int64
+	for b, nb := 0, intRange(t, "bigBases", 1, 2); b < nb; b++ {
+		base := pick(t, "bigBase", bigBases)
+		for k, nk := 0, intRange(t, "bigNeighbours", 2, 3); k < nk; k++ {
+			d := int64(intRange(t, "bigDelta", -2, 2))
+			x := base + d
+			if (d > 0 && x < base) || (d < 0 && x > base) {
+				x = base // would leave the 64-bit range
+			}
+			ok := true
+			for _, y := range pool {
+				if y == x || (injective && float64(y) == float64(x)) {
+					ok = false
+				}
+			}
+			if ok {
+				pool = append(pool, x)
+			}
+		}
+	}
+	return pool
+}
+
+// bigCell spells x as an integer, a (padded) string or - when floats are allowed - the float64 next to it.
+func bigCell(t *rapid.T, x int64, floats bool) val.Val {
+	k := uni(t, "bigSpelling", 100)
+	switch {
+	case floats && k < 35:
+		return val.Float(float64(x))
+	case k < 65:
+		return val.Int(x)
+	}
+	return val.Str(pick(t, "bigPadL", []string{"", " ", "  "}) + strconv.FormatInt(x, 10) + pick(t, "bigPadR", []string{"", "", " "}))
+}
+
+func colHasFloat(rows [][]val.Val, idx int) bool {
+	for _, r := range rows {
+		if idx < len(r) && r[idx].K == "F" {
+			return true
+		}
+	}
+	return false
 }
 
 func genBoundN(t *rapid.T, large bool) int {
@@ -365,6 +430,14 @@ func genCall(t *rapid.T, large bool, rows [][]val.Val, fns []string) anaCase {
 	// PARTITION BY 0-2 items
 	npk := pick(t, "nPartition", []int{0, 1, 1, 1, 2, 2})
 	c.Partition = rapid.Permutation([]string{"p1", "p2", "o1"}).Draw(t, "partitionCols")[:npk]
+	if colHasFloat(rows, cO1) {
+		// integer n vs float n.0 in one partition is an open pair: no floats in partition keys
+		for i, p := range c.Partition {
+			if p == "o1" {
+				c.Partition[i] = map[bool]string{true: "p1", false: "p2"}[!isIn("p1", c.Partition)]
+			}
+		}
+	}
 	if large && npk > 0 && c.Partition[0] == "o1" && chance(t, "largeP1", 70) {
 		c.Partition[0] = "p1"
 		if npk == 2 && c.Partition[1] == "p1" {
@@ -634,7 +707,7 @@ func fnSQL(c anaCase) string {
 
 // inDomain re-validates a (possibly hand-written replay) case against the model's domain.
 func inDomain(c anaCase) bool {
-	if !rowsInDomain(c.Rows) || c.CPU < 1 {
+	if !rowsInDomain(c.Rows) || c.CPU < 1 || !partitionKeysInDomain(c.Rows, c) {
 		return false
 	}
 	if c.Arg == "a1" || c.Arg == "a2" {
@@ -661,10 +734,27 @@ func rowsInDomain(rows [][]val.Val) bool {
 		}
 		seen[r[cID].S] = true
 		for i, v := range r {
+			if i == cO1 {
+				// integers, strings spelling an integer (edge blanks: spaces), finite floats
+				switch v.K {
+				case "N", "I":
+				case "S":
+					if _, ok := ref.AsInteger(v); !ok || strings.Trim(v.S, " ") != strings.TrimSpace(v.S) {
+						return false
+					}
+				case "F":
+					if f := v.AsFloat(); math.IsNaN(f) || math.IsInf(f, 0) {
+						return false
+					}
+				default:
+					return false
+				}
+				continue
+			}
 			switch v.K {
 			case "N", "I":
 			case "S":
-				if i == cID || i == cP2 || i == cO1 || i == cV || !isIn(v.S, strAlphabet) {
+				if i == cID || i == cP2 || i == cV || !isIn(v.S, strAlphabet) {
 					return false
 				}
 			default:
@@ -675,7 +765,66 @@ func rowsInDomain(rows [][]val.Val) bool {
 			}
 		}
 	}
+	if colHasFloat(rows, cO1) {
+		// next to floats the integers must have distinct float64 images (see genBigPool)
+		img := map[float64]int64{}
+		for _, r := range rows {
+			if i, ok := ref.AsInteger(r[cO1]); ok {
+				if j, dup := img[float64(i)]; dup && j != i {
+					return false
+				}
+				img[float64(i)] = i
+			}
+		}
+	}
 	return true
+}
+
+// partitionKeysInDomain: no float cell in a PARTITION BY column.
+func partitionKeysInDomain(rows [][]val.Val, c anaCase) bool {
+	for _, p := range c.Partition {
+		if colHasFloat(rows, colIdx(p)) {
+			return false
+		}
+	}
+	return true
+}
+
+// bigKeyClasses labels the cases that exercise 64-bit exact comparison of ORDER BY / PARTITION BY keys.
+func bigKeyClasses(rows [][]val.Val, c anaCase) []string {
+	big, collide := false, false
+	img := map[float64]int64{}
+	for _, r := range rows {
+		if i, ok := ref.AsInteger(r[cO1]); ok && (i > 1<<52 || i < -(1<<52)) {
+			big = true
+			if j, dup := img[float64(i)]; dup && j != i {
+				collide = true
+			}
+			img[float64(i)] = i
+		}
+	}
+	if !big {
+		return nil
+	}
+	var out []string
+	mode := "o1:integers_beyond_2^53"
+	if colHasFloat(rows, cO1) {
+		mode = "o1:integers_beyond_2^53_and_floats"
+	}
+	out = append(out, mode)
+	if hasOrderCol(c, "o1") {
+		out = append(out, "order_key_beyond_2^53")
+		if collide {
+			out = append(out, "order_key_distinct_integers_same_float64")
+		}
+	}
+	if isIn("o1", c.Partition) {
+		out = append(out, "partition_key_beyond_2^53")
+		if collide {
+			out = append(out, "partition_key_distinct_integers_same_float64")
+		}
+	}
+	return out
 }
 
 // callInDomain: the call's clauses are inside the reference model's domain
@@ -744,6 +893,10 @@ func checkCase(c anaCase) (fw.Outcome, *fw.Violation) {
 	o.Classes = []string{"fn:" + c.Fn, fmt.Sprintf("partition_items:%d", len(c.Partition)), fmt.Sprintf("order_items:%d", nUser),
 		fmt.Sprintf("order_unique_by_id:%v", in.UniqueOrder), "frame:" + c.Frame.Shape(), fmt.Sprintf("ties:%v", ties), "size:" + size,
 		fmt.Sprintf("cpu:%d", c.CPU)}
+	for _, cl := range bigKeyClasses(c.Rows, c) {
+		o.Classes = append(o.Classes, cl)
+		fw.AddExtra("analytic/"+cl, 1) // the evidence keeps only the most frequent classes: count these separately
+	}
 	if singleParts > 0 {
 		o.Classes = append(o.Classes, "has_single_row_partition")
 	}
